@@ -3221,3 +3221,10 @@ VARIANTS = [
           "class PrintVisitor(base_visitor.Visitor):\n"),
          (PRINTER, "  def VisitLateType(self, node):\n    return self.VisitNamedType(node)\n\n  def VisitClassType", "  def VisitClassType")]},
 ]
+
+EXPLANATION += (
+    ' R5.20 (rules/c05_implicit_self.py): a convention the stub reader applies implicitly (a type mutation synthesised for a first parameter named `self` annotated with a GenericType) needs a counterpart on the producing side (output.py sets mutated_type under a test on the parameter name, or the printer decides the `self = T` body from the same condition), otherwise print(parse(print(ast))) != print(ast). Today there is none: known finding D60.'
+)
+ASSUMPTIONS += [
+    "R5.20 recognises a counterpart only in output.py's pytd.Parameter constructions / Replace(mutated_type=) calls and in PrintVisitor.VisitSignature and the PrintVisitor methods it calls; a repair placed elsewhere would have to be added to the rule.",
+]
